@@ -50,6 +50,21 @@ Proof.
   nia.
 Qed.
 
+Lemma bal_abs (w d : Z) : 1 <= w -> in_range w d -> Z.abs d <= 2 ^ w - 1.
+Proof.
+  intros Hw [H1 H2]. pose proof (pow2_pos (w - 1) ltac:(lia)). pose proof (pow2_split w ltac:(lia)). lia.
+Qed.
+
+Lemma pieces_bound (w t d p : Z) : 1 <= w -> 0 <= t -> in_range w d -> Z.abs p <= 2 ^ t - 1 ->
+  Z.abs (d + 2 ^ w * p) <= 2 ^ w * 2 ^ t - 1.
+Proof.
+  intros Hw Ht [H1 H2] Hp. pose proof (pow2_pos (w - 1) ltac:(lia)). pose proof (pow2_split w ltac:(lia)).
+  pose proof (pow2_pos t Ht). nia.
+Qed.
+
+Lemma full_pos (R rl rb x : Z) : 0 <= rl -> 1 <= rb -> 0 <= x -> (R - rl) * rb - x = R * rb -> rl = 0 /\ x = 0.
+Proof. intros; nia. Qed.
+
 (* ---------- value of the res limbs as one integer (limb rsz-1 is the least significant) ---------- *)
 
 Section Inner.
@@ -107,6 +122,9 @@ Definition post (s s' : cstate) (o : couts) : Prop :=
   (o = OuterBreak ->
      exists K, Vres (c_res s') = Vres (c_res s) + 2 ^ Fpos s * c_anorm s + 2 ^ (zn rsz * rb) * K).
 
+Lemma Fpos_nonneg (s : cstate) : (c_rlimb s < rsz)%nat -> 0 <= c_racc s <= rb -> 0 <= Fpos s.
+Proof. intros Hl Hr. unfold Fpos, zn. nia. Qed.
+
 Lemma weight_at (s : cstate) : (c_rlimb s < rsz)%nat -> 0 <= c_racc s <= rb ->
   2 ^ (rb - c_racc s) * 2 ^ ((zn rsz - 1 - zn (c_rlimb s)) * rb) = 2 ^ Fpos s.
 Proof.
@@ -121,7 +139,7 @@ Proof.
   { destruct Hpre as (_ & _ & Ha & _). lia. }
   destruct Hpre as (Hsh & Hr & Ha & Hn & Hc & Hrc & Hal).
   destruct Hsh as (Sl & Sr & Sz & Sb).
-  cbn [cross_inner].
+  cbn [cross_inner]. unfold post.
   set (w := Z.min (Z.min ab (c_atake s)) (c_racc s)).
   assert (Hw : 1 <= w /\ w <= c_atake s /\ w <= c_racc s /\ (w = c_atake s \/ w = c_racc s))
     by (unfold w; lia).
@@ -157,9 +175,8 @@ Proof.
   assert (Hdone : atake1 = 0 ->
     c_anorm s = d + 2 ^ c_atake s * n1 /\ Z.abs d <= 2 ^ c_atake s - 1 /\ Z.abs n1 <= 1).
   { intros E0. assert (Ew : w = c_atake s) by (unfold atake1 in E0; lia).
-    rewrite <- Ew. replace (c_atake s - w) with 0 in Hn1 by lia. change (2 ^ 0) with 1 in Hn1.
-    pose proof (pow2_pos (w - 1) ltac:(lia)). pose proof (pow2_split w ltac:(lia)).
-    unfold in_range in Hdr. repeat split; lia. }
+    rewrite <- Ew. split; [symmetry; exact Hdec|]. split; [apply bal_abs; [lia|exact Hdr]|].
+    replace (c_atake s - w) with 0 in Hn1 by lia. exact Hn1. }
   assert (Hwadd : atake1 = 0 -> wadd 64 (c_acarry s) n1 = c_acarry s + n1).
   { intros E0. destruct (Hdone E0) as (_ & _ & Hb1). unfold wadd. apply wrap_id; [lia|].
     unfold in_range. change (2 ^ (64 - 1)) with (2 * 2 ^ 62). lia. }
@@ -170,7 +187,9 @@ Proof.
       apply Nat.eqb_eq in Ea0. apply Z.eqb_eq in Et0.
       specialize (Hal Ea0).
       assert (Hfull : c_rlimb s = 0%nat /\ racc1 = 0).
-      { unfold Fpos in Hal. unfold atake1, racc1 in *. unfold zn in *. nia. }
+      { destruct (full_pos (zn rsz) (zn (c_rlimb s)) rb racc1) as [Q1 Q2];
+          [unfold zn; lia|lia|lia|unfold Fpos in Hal; unfold atake1, racc1 in *; lia|].
+        split; [unfold zn in Q1; lia|exact Q2]. }
       destruct Hfull as [Hrl0 Hr0].
       destruct (Z.eqb_spec racc1 0) as [_|]; [|lia].
       set (x0 := nthZ res1 (c_rlimb s)).
@@ -183,14 +202,18 @@ Proof.
       rewrite Vres_upd by (auto; lia). fold x0. rewrite V1.
       pose proof (wrap_bdiv rb x0 ltac:(lia)) as Hdx.
       assert (Ew : w = c_atake s) by (unfold atake1 in Et0; lia).
-      assert (EF : 2 ^ (zn rsz * rb) = 2 ^ Fpos s * 2 ^ w).
-      { rewrite <- pow2_add by (unfold Fpos, zn in *; nia). f_equal. lia. }
+      pose proof (Fpos_nonneg s Sr ltac:(lia)) as HF0.
+      assert (EF : 2 ^ Fpos s * 2 ^ w = 2 ^ (zn rsz * rb)).
+      { rewrite <- pow2_add by lia. f_equal. lia. }
       assert (EW : 2 ^ (zn rsz * rb) = 2 ^ rb * 2 ^ ((zn rsz - 1 - zn (c_rlimb s)) * rb)).
-      { rewrite <- pow2_add by (unfold zn in *; nia). f_equal. rewrite Hrl0. unfold zn. cbn. ring. }
-      rewrite EF at 1. rewrite EF in EW.
+      { rewrite Hrl0. change (zn 0) with 0.
+        assert (HR1 : 0 <= zn rsz - 1 - 0) by (unfold zn; lia).
+        rewrite <- pow2_add; [f_equal; ring|lia|apply Z.mul_nonneg_nonneg; lia]. }
       set (W := 2 ^ ((zn rsz - 1 - zn (c_rlimb s)) * rb)) in *.
       replace (wrap rb x0 - x0) with (- 2 ^ rb * bdiv rb x0) by lia.
-      rewrite <- Hdec at 2. nia.
+      rewrite <- Hdec.
+      replace (2 ^ Fpos s * (d + 2 ^ w * n1)) with (2 ^ Fpos s * d + (2 ^ Fpos s * 2 ^ w) * n1) by ring.
+      rewrite EF, EW. ring.
     + destruct (Nat.eqb_spec (c_rlimb s) 0) as [Erl|Erl].
       * (* res is full *)
         cbn [fst snd c_res c_anorm]. split; [discriminate|]. split; [discriminate|]. intros _.
@@ -198,10 +221,11 @@ Proof.
         { destruct (Z.eqb_spec racc1 0) as [|Hne]; [assumption|]. cbn [orb] in Eb.
           apply Nat.eqb_eq in Eb. rewrite Eb in Ec. cbn [andb] in Ec. apply Z.eqb_neq in Ec. lia. }
         exists (- n1). rewrite V1.
+        pose proof (Fpos_nonneg s Sr ltac:(lia)) as HF0.
         assert (EF : 2 ^ (zn rsz * rb) = 2 ^ Fpos s * 2 ^ w).
-        { rewrite <- pow2_add by (unfold Fpos, racc1, zn in *; nia). f_equal.
-          unfold Fpos, racc1 in *. rewrite Erl. unfold zn. cbn. lia. }
-        rewrite EF. rewrite <- Hdec at 2. nia.
+        { rewrite <- pow2_add by lia. f_equal.
+          unfold Fpos, racc1 in *. rewrite Erl. change (zn 0) with 0. lia. }
+        rewrite EF. rewrite <- Hdec. ring.
       * (* move on to the next res limb *)
         assert (Hr0 : racc1 = 0).
         { destruct (Z.eqb_spec racc1 0) as [|Hne]; [assumption|]. cbn [orb] in Eb.
@@ -234,22 +258,19 @@ Proof.
            assert (Ea : 2 ^ c_atake s = 2 ^ w * 2 ^ atake1)
              by (rewrite <- pow2_add by lia; f_equal; unfold atake1; lia).
            assert (EF : 2 ^ Fpos s2 = 2 ^ Fpos s * 2 ^ w).
-           { rewrite F2. apply pow2_add; [|lia]. unfold Fpos, zn. nia. }
+           { rewrite F2. apply pow2_add; [|lia]. apply Fpos_nonneg; [exact Sr|lia]. }
            split; [exact P1|]. split.
            ++ intros Ho. destruct (P2 Ho) as (Pi1 & Q1 & Q2 & Q3 & Q4 & Q5 & Q6 & Q7 & Q8).
               unfold s2 in Q1, Q2, Q3, Q8. cbn [c_anorm c_atake c_acarry c_res] in Q1, Q2, Q3, Q8. fold s2 in Q3.
               exists (d + 2 ^ w * Pi1).
-              pose proof (pow2_pos w ltac:(lia)). pose proof (pow2_pos atake1 ltac:(lia)).
-              pose proof (pow2_pos (w - 1) ltac:(lia)). pose proof (pow2_split w ltac:(lia)).
-              unfold in_range in Hdr.
               split; [rewrite Ea; rewrite <- Hdec, Q1; ring|].
-              split; [rewrite Ea; nia|].
+              split; [rewrite Ea; apply pieces_bound; [lia|lia|exact Hdr|exact Q2]|].
               split; [rewrite Q3, V1, EF; ring|].
               split; [rewrite Q4, F2; unfold s2; cbn [c_atake]; unfold atake1; ring|].
               split; [exact Q5|]. split; [exact Q6|]. split; [exact Q7|exact Q8].
            ++ intros Ho. destruct (P3 Ho) as (K & Q).
               unfold s2 in Q at 2. cbn [c_res c_anorm] in Q. exists K.
-              rewrite Q, V1, EF. rewrite <- Hdec at 2. ring.
+              rewrite Q, V1, EF. rewrite <- Hdec. ring.
   - (* the res limb is not full and more a-limbs follow: this a-limb is exhausted *)
     apply Bool.orb_false_iff in Eb. destruct Eb as [Eb _]. apply Z.eqb_neq in Eb.
     destruct (Z.eqb_spec atake1 0) as [E0|E0]; [|lia].
